@@ -272,6 +272,22 @@ func cmdConc(args []string) int {
 		}
 	}()
 
+	// compactions and snapshots by their own goroutine, all through the churn above (a compaction holding a read lock of
+	// the core while a create / drop queues for the write lock)
+	wg.Add(1)
+	go func() {
+		defer wg.Done()
+		rng := rand.New(rand.NewSource(*seed * 15485863))
+		for i := 0; i < 10; i++ {
+			time.Sleep(time.Duration(rng.Intn(900)) * time.Microsecond)
+			if i%3 == 2 {
+				call("SaveSnapshot", func() (bool, map[string]any) { return e.SaveSnapshot() == nil, nil }, nil)
+			} else {
+				call("RewriteAOF", func() (bool, map[string]any) { return e.RewriteAOF() == nil, nil }, nil)
+			}
+		}
+	}()
+
 	// several creators of ONE name at the same time: exactly one VCreate may succeed until the index is dropped again
 	// (Trace_Conc: a second success needs a VDeleteIndex of that name in between)
 	for g := 0; g < 3; g++ {
